@@ -19,6 +19,9 @@
 (*   SetDim(n)       ratios cut on the right / filled with 1 on the LEFT,  *)
 (*                   angles cut / filled with 0 on the right, then the     *)
 (*                   temporal rule                                         *)
+(*   Call / CallStored / Refresh / ReadPos   uses of the model and of       *)
+(*                   long-lived SRF / Krige objects with stored positions: *)
+(*                   nothing changes (UseKeepsState)                       *)
 (* Which assignments are made is scripted by the driver (seeded): Scripts  *)
 (* is a sequence of [init, ops]; behaviour k executes Scripts[k].ops in    *)
 (* order.  TLC computes the effect of each operation and the invariants of *)
@@ -43,6 +46,13 @@ FitAng(d, s)  == LET t == Take(s, NoAngles(d)) IN t \o [i \in 1..(NoAngles(d) - 
 ModelAngles(d, s) == IF Temporal THEN TemporalQs(d, s) ELSE s
 Seq0(s) == [i \in 1..Len(s) |-> s[i]]     \* normal form of a sequence
 
+(* Uses: "Call" = evaluate at explicitly given positions (they are stored in the object),
+   "CallStored" = evaluate again re-using the stored positions, "Refresh" = Krige.set_condition()
+   without arguments, "ReadPos" = read the stored pos / cond_pos.  None of them is an assignment:
+   parameters, transformation and (for the driver) the stored position arrays stay what they were,
+   so the n-th identical call returns what the first returned. *)
+UseOps == {"Call", "CallStored", "Refresh", "ReadPos"}
+
 Apply(c, o) ==
   CASE o.name = "SetAnis" ->
          IF Len(o.s) = c.d - 1 THEN [c EXCEPT !.es = Seq0(o.s)]
@@ -59,6 +69,8 @@ Apply(c, o) ==
     [] o.name = "SetDim" ->
          [c EXCEPT !.d = o.v, !.es = Seq0(FitAnis(o.v, c.es)),
                    !.qs = Seq0(ModelAngles(o.v, FitAng(o.v, c.qs)))]
+    \* uses of the model and of long-lived objects holding stored positions: no parameter changes
+    [] o.name \in UseOps -> c
     [] OTHER -> Assert(FALSE, <<"unknown operation", o>>)
 
 NoOp == [name |-> "Init", s |-> <<>>, v |-> 0]
@@ -75,6 +87,8 @@ HNext == /\ step < Len(Scripts[k].ops)
          /\ op' = Scripts[k].ops[step + 1]
          /\ cfg' = Apply(cfg, op')
          /\ out' = Compute(cfg')
+
+UseKeepsState == [][op'.name \in UseOps => (cfg' = cfg /\ out' = out)]_hvars
 
 (* besides the invariants of Geometry (InverseOK, ..., TimeAxisOK on the current parameters):
    a time axis is never rotated, whatever was assigned *)
